@@ -93,6 +93,10 @@ def check_roundtrip(j) -> None:
         raise Failure("roundtrip:reused-deserializer-raises", case, f"a reused Deserializer raised {type(e).__name__}: {e} on bytes a fresh one decodes")
     if back2.instructions != sub.instructions or back2.app_id != j["app_id"]:
         raise Failure("roundtrip:reused-deserializer", case, "a reused Deserializer decodes the same bytes differently from a fresh one")
+    # ... and what it returned stays what it was when the same object decodes something else afterwards
+    _persistent_deserializer(fname).deserialize_subroutine(_other_bytes())
+    if back2.instructions != sub.instructions or back2.app_id != j["app_id"]:
+        raise Failure("roundtrip:earlier-result-changed", case, f"the subroutine a reused Deserializer returned changed when it decoded another one: now {[str(i) for i in back2.instructions][:4]}")
     # in-place edits of the instruction list must show up in the next encoding
     if sub.instructions:
         import copy as _copy
@@ -118,6 +122,12 @@ def check_roundtrip(j) -> None:
             raise Failure(f"roundtrip:reserialise-raises:{how}", case, f"re-serialising after {how} raised {type(e).__name__}: {e}")
         if again.app_id != new_id or again.instructions != sub.instructions or tuple(again.netqasm_version) != tuple(j["version"]):
             raise Failure(f"roundtrip:stale-after-{how}", case, f"after {how} to application {new_id} the encoded bytes decode with app id {again.app_id}, version {again.netqasm_version}")
+
+
+@functools.lru_cache(maxsize=None)
+def _other_bytes() -> bytes:
+    """some other subroutine (two core instructions, valid in every flavour)"""
+    return bytes(g.build_subroutine({"flavour": "vanilla", "app_id": 9, "version": [0, 10], "instrs": [["SetInstruction", "set", ["R1", 5]], ["SetInstruction", "set", ["R2", 6]]]}))
 
 
 @functools.lru_cache(maxsize=None)
@@ -218,6 +228,14 @@ def shard(ctx: Ctx) -> None:
     if ctx.shard == 0:
         check_tables(ctx)
         stt.exhaustive_domains["every class with all-zero operands, decoded in opcode order across flavours (both orders)"] = check_same_bytes_across_flavours(ctx)
+        from checks.c02 import all_distinct
+
+        for fname in g.FLAVOURS:
+            base = [[cls.__name__, cls.mnemonic, all_distinct(g.shape_of(cls))] for cls in g.flavour_classes(fname)]
+            for n_long in (1001, 4100):
+                j_long = {"flavour": fname, "app_id": 3, "version": [0, 10], "instrs": (base * (n_long // len(base) + 1))[:n_long]}
+                ctx.attempt({"kind": "sub", **j_long}, check_roundtrip, j_long)
+                stt.case(["long", fname, n_long], True, [f"flavour:{fname}", "len>1000"])
     n_sub = 1500 if ctx.tier == "quick" else 20000
     n_bytes = 600 if ctx.tier == "quick" else 6000
     for fi, fname in enumerate(g.FLAVOURS):
